@@ -20,7 +20,7 @@ def run(chk):
     chk.rule = ("op routes (same records as C12): Voronoi::build[_partial] vs Voronoi::from(&VoronoiIntegrator) compared bitwise (all tokens); compute_cell_integrals<VolumeCentroid> vs stored cells; "
                 "compute_face_integrals_sym<AreaCentroid> vs stored faces (bitwise, order included); sym vs filtered non-sym; with_faces route within tolerance; headers vs Model/Tess; "
                 "non-trivial = tessellation with >= 1 interior face")
-    chk.lean(['MVoro.Props.C13', 'MVoro.Proofs.TessBook'], ['MVoro.Obl.DimInput', 'MVoro.Obl.Integrals'], ['DimInput', 'Integrals', 'Geom'])
+    chk.lean(['MVoro.Props.C13', 'MVoro.Proofs.TessBook'], ['MVoro.Obl.DimInput', 'MVoro.Obl.Integrals', 'MVoro.Obl.Rules'], ['DimInput', 'Integrals', 'Geom', 'Rules'])
     got = run_cells_op(chk, op='routes')
     if got is None:
         return
@@ -80,6 +80,15 @@ def run(chk):
         fs = [(a, b, c, vals) for (a, b, c, vals) in impl['fs']]
         if fs != facehex:
             chk.violation('impl-vs-impl', 'compute_face_integrals_sym<AreaCentroid> != stored face list (headers, area, centroid; order included) %s' % where, rp, key='fs')
+        # 3b. the plain VolumeIntegral / AreaIntegral give the same numbers as the centroid variants; get_cell_at follows the mask
+        if 'vo' in impl:
+            if impl['vo'] != [c[0] for c in ci]:
+                chk.violation('impl-vs-impl', 'compute_cell_integrals<VolumeIntegral> != volumes of compute_cell_integrals<VolumeCentroidIntegral> (bitwise, order included) %s' % where, rp, key='vo')
+            if impl['ao'] != [x[3][0] for x in impl['fn']]:
+                chk.violation('impl-vs-impl', 'compute_face_integrals<AreaIntegral> != areas of compute_face_integrals<AreaCentroidIntegral> (bitwise, order included) %s' % where, rp, key='ao')
+            want_gc = ''.join('1' if a else '0' for a in active)
+            if impl['gc'] != want_gc:
+                chk.violation('impl-vs-oracle', 'get_cell_at: presence / idx pattern %s, the mask says %s %s' % (impl['gc'], want_gc, where), rp, key='gc')
         # 4. sym = nonsym minus faces already reported by a constructed lower-index neighbour without shift
         filt = [x for x in impl['fn'] if not (x[2] is None and x[1] is not None and x[1] < x[0] and active[x[1]])]
         if filt != impl['fs']:
